@@ -49,7 +49,9 @@ def run(rep: Report, ctx: Any) -> str:
                       "carry the reference path")
     rep.rule("R07.7", "a component schema removed from the registry of references (del / pop on classes_by_reference) is named in a "
                       "diagnostic: on every path to the removal the removed key is written into the text of an error (or an error built "
-                      "from it is recorded)")
+                      "from it is recorded); or the removing function hands the key on - every path from the removal to its end yields / "
+                      "returns the key - and every caller in the package either hands it on the same way or writes what it receives "
+                      "into the text of an error on every path on which it received anything")
     rep.rule("R07.8", "every response kept by the parser gets its status branch in the generated module: inside the loop over "
                       "endpoint.responses the status value is emitted under every assignment of the template conditions")
     rep.rule("R07.5", "aggregation reaches the CLI: collection errors + schema/parameter errors + project errors; the collections (which "
@@ -74,6 +76,18 @@ def run(rep: Report, ctx: Any) -> str:
                        "of classes (classes_by_name / classes_by_reference) and asks whether K is taken (K in registry, registry.get(K), "
                        "a private helper that asks), every path on which K is taken ends - from the question on - in an error return or "
                        "a raise, whatever else is found out about the entry that holds the key")
+
+    rep.rule("R07.13", "a diagnostic outlives the rounds of a work-list loop: where a loop over items of the document runs inside a loop "
+                       "whose body re-binds the work list from a list it starts afresh every round (the queue for the next round), an error "
+                       "appended to a list that is likewise started afresh every round is appended for an item that is queued again on the "
+                       "same path (the next round records it anew); the error of an item that is not attempted again goes to a list the "
+                       "rounds do not reset")
+
+    rep.rule("R07.14", "a diagnostic belongs to one item: callers write the label of their item (method and path, reference - R07.3) into the "
+                       "error object they are returned, so an error a function returns (or yields) is an object of its own - built in the "
+                       "call or returned by a callee - never one read out of a store of errors (an entry of a field / module variable that "
+                       "holds errors: subscript, get, setdefault, the variable of a loop over it) nor a module-level error object: a stored "
+                       "error handed out twice is re-labelled by each receiver and only the last item stays named")
 
     # ---- R07.1 -------------------------------------------------------------------------------------------------------
     returns_err: dict[str, list[Any]] = {}
@@ -111,6 +125,8 @@ def run(rep: Report, ctx: Any) -> str:
     # ---- R07.2 -----------------------------------------------------------------------------------------------------------
     n_ends = 0
     n_loops = 0
+    n_rounds = 0
+    frail_ends: list[tuple[ast.AST, str]] = []
     kinds_seen: set[str] = set()
     for f, loops in sorted(document_loops(ix).items(), key=lambda kv: kv[0].qual):
         sf = short(f)
@@ -145,6 +161,21 @@ def run(rep: Report, ctx: Any) -> str:
                                                        "there is no item", nontrivial=False)
                 else:
                     rep.ok("R07.2", key, gtxt[:80], "every path records a diagnostic or keeps the item")
+                if an.requeue and not isinstance(end, ast.Return):
+                    for s_ in states:
+                        if s_.frail and not s_.again and (end, gtxt) not in frail_ends:
+                            frail_ends.append((end, gtxt))
+            if an.requeue:
+                n_rounds += 1
+                rep.check(not frail_ends, "R07.13", f"{sf}::round-record [for _ in {role_anon(lp.iter, f.node)[:60]}]",
+                          f"an error of an item ({kind_of_item}) is appended to a list that the round loop around this loop starts afresh every "
+                          "round, on a path that does not queue the item for the next round: as soon as another round runs the list is "
+                          "emptied, the item is not attempted again and nothing names it", where(f, frail_ends[0][0] if frail_ends else lp),
+                          lhs=[f"{type(e_).__name__.lower()} under [{g_[:60]}] @ line {getattr(e_, 'lineno', 0)}" for e_, g_ in frail_ends],
+                          rhs="on every path: appended to the per-round list => the item is appended to the queue for the next round; "
+                              "otherwise recorded in a list bound outside the round loop")
+            frail_ends = []
+    rep.floor("round_loops", n_rounds, 1)
     rep.floor("document_loops", n_loops, 4)
     rep.floor("loop_skips", n_ends, 16)
     rep.require(set(ENUMERATED) <= kinds_seen, f"a loop over each kind of item the property enumerates {ENUMERATED}; found {sorted(kinds_seen)}")
@@ -240,11 +271,13 @@ def run(rep: Report, ctx: Any) -> str:
                             return True
                 return False
 
-            ok = cfg.is_dominated_by(st, names_it)
+            ok = cfg.is_dominated_by(st, names_it) or _key_handed_to_diagnostic(ix, f, st, key, cfgs)
             rep.check(ok, "R07.7", f"{short(f)}::remove {reg}[{anon(key, local_names(f.node))}]",
                       "a component schema is removed from the registry on a path that does not write its reference into any diagnostic: "
                       "the schema disappears without being named", where(f, st), lhs=norm(st)[:80],
-                      rhs="dominated by <error>.detail += f'...{key}...' (or an error record built from the key)")
+                      rhs="dominated by <error>.detail += f'...{key}...' (or an error record built from the key), or the key is handed to "
+                          "the caller (yield / return) on every path from the removal and every caller writes what it is handed into the "
+                          "text of an error")
     rep.floor("accounted_removals", n_removed, 1)
 
     # ---- R07.8 ---------------------------------------------------------------------------------------------------------------------
@@ -347,6 +380,24 @@ def run(rep: Report, ctx: Any) -> str:
                   lhs=[f"{norm(b)[:60]} @ line {getattr(b, 'lineno', 0)}" for b in bad], rhs="with the key present, every path from the question on ends in an error return / raise")
     rep.floor("registering_functions_that_ask", n_present, 1)
 
+    # ---- R07.14 -----------------------------------------------------------------------------------------------------------------------
+    stores = _error_stores(ix)
+    rep.floor("error_stores", len(stores), 2)
+    n_handed = 0
+    for f in ix.all_functions:
+        if not f.module.name.startswith(f"{PKG}.parser"):
+            continue
+        n_out, shared = _stored_errors_handed_out(f, stores)
+        n_handed += n_out
+        for store, leaves in sorted(shared.items()):
+            rep.fail("R07.14", f"{short(f)}::hands out stored error [{store}]",
+                     f"{short(f)} returns an error object it read out of `{store}`, which holds errors beyond the call: every receiver labels "
+                     "the object in place with its own item, so all of them end up sharing the label of the last one and the other items "
+                     "are named by no diagnostic", where(f, leaves[0]), lhs=[f"{norm(x)[:60]} @ line {getattr(x, 'lineno', 0)}" for x in leaves],
+                     rhs="a new error per call (built from the stored one's text if need be), or a copy")
+    rep.ok("R07.14", "parser::errors handed out are fresh", f"{n_handed} result values of functions that read error stores {sorted(stores)[:8]}",
+           "no function returns an entry of a store of errors or a module-level error object", nontrivial=bool(stores))
+
     # ---- R07.11 -----------------------------------------------------------------------------------------------------------------------
     n_copies = 0
     carriers = _diagnostic_carriers(ix)
@@ -387,9 +438,11 @@ def run(rep: Report, ctx: Any) -> str:
 
     # ---- R07.6 -----------------------------------------------------------------------------------------------------------------------
     # the tag list (any spelling): the local handed to Endpoint.from_data as tags=
-    efd_calls = [c for c in ast.walk(fd.node) if isinstance(c, ast.Call) and call_name(c) == "Endpoint.from_data"]
-    rep.require(efd_calls, "Endpoint.from_data(...) call in EndpointCollection.from_data")
-    tagv = next((norm(k.value) for c in efd_calls for k in c.keywords if k.arg == "tags"), "")
+    # (the call may sit in a private helper from_data delegates the parsing of one operation to: what the helper is handed for the
+    # parameter it passes on is the tag list)
+    efd_tags = _handed_on(ix, fd, "Endpoint.from_data", "tags")
+    rep.require(efd_tags is not None, "Endpoint.from_data(...) call in EndpointCollection.from_data (or a private helper of it)")
+    tagv = next((norm(v) for v in efd_tags or []), "")
     tags_assign = [n for n in ast.walk(fd.node) if isinstance(n, ast.Assign) and norm(n.targets[0]) == tagv]
     rep.require(tags_assign, "tags assignment in from_data")
     first = tags_assign[0]
@@ -516,6 +569,143 @@ def _silent_when_present(ix: Any, f: Any, reg: str, key: ast.AST, asked: list[as
             if falls and f.node not in bad:
                 bad.append(f.node)
     return bad
+
+
+# ---- errors handed out are fresh ------------------------------------------------------------------------------------------------------
+_STORE_HEADS = {"dict", "Dict", "list", "List", "set", "Set", "Mapping", "MutableMapping", "Sequence", "MutableSequence", "defaultdict", "OrderedDict",
+                "deque", "frozenset", "FrozenSet", "tuple", "Tuple"}
+
+
+def _holds_errors(ann: "ast.AST | None") -> bool:
+    """the annotation declares a container with an error class among its element types"""
+    if isinstance(ann, ast.Constant) and isinstance(ann.value, str):
+        try:
+            ann = ast.parse(ann.value, mode="eval").body
+        except SyntaxError:
+            return False
+    if isinstance(ann, ast.BinOp) and isinstance(ann.op, ast.BitOr):
+        return _holds_errors(ann.left) or _holds_errors(ann.right)
+    if not isinstance(ann, ast.Subscript):
+        return False
+    head = norm(ann.value).rsplit(".", 1)[-1]
+    parts = ann.slice.elts if isinstance(ann.slice, ast.Tuple) else [ann.slice]
+    if head in ("Optional", "Union", "Final", "ClassVar", "Annotated"):
+        return any(_holds_errors(p_) for p_ in parts)
+    if head not in _STORE_HEADS:
+        return False
+    return any((dotted_name(n) or "").rsplit(".", 1)[-1] in ERROR_CLASSES for p_ in parts for n in ast.walk(p_) if isinstance(n, (ast.Name, ast.Attribute))) or \
+        any(isinstance(n, ast.Constant) and isinstance(n.value, str) and n.value.rsplit(".", 1)[-1] in ERROR_CLASSES for p_ in parts for n in ast.walk(p_))
+
+
+def _error_stores(ix: Any) -> set[str]:
+    """names of the places that hold errors beyond one call: fields of the package's classes and module variables declared as
+    containers of errors, and attributes into which some function of the package stores an error (`X.a[k] = <error>`,
+    `X.a.append / add / setdefault(.., <error>)`).  Fields read `.name`, module variables `name`."""
+    if hasattr(ix, "_c07_stores"):
+        return ix._c07_stores
+    out: set[str] = set()
+    for c in ix.classes.values():
+        if c.module.name.startswith(PKG):
+            out |= {f".{fld}" for fld, ann in ix.all_fields(c).items() if _holds_errors(ann)}
+    for name, m in ix.modules.items():
+        if name.startswith(PKG):
+            out |= {v for v, ann in m.var_ann.items() if _holds_errors(ann)}
+    for f in ix.all_functions:
+        if not f.module.name.startswith(PKG):
+            continue
+        errs = error_names(f.node)
+
+        def is_err(v: ast.AST, errs: set[str] = errs) -> bool:
+            return constructs_error(v) or (isinstance(v, ast.Name) and v.id in errs)
+
+        for n in _own_walk(f.node):
+            if isinstance(n, ast.Assign) and is_err(n.value):
+                out |= {f".{t.value.attr}" for t in n.targets if isinstance(t, ast.Subscript) and isinstance(t.value, ast.Attribute)}
+            if isinstance(n, ast.Call) and isinstance(n.func, ast.Attribute) and n.func.attr in ("append", "add", "setdefault", "insert") and \
+                    isinstance(n.func.value, ast.Attribute) and n.args and is_err(n.args[-1]):
+                out.add(f".{n.func.value.attr}")
+    ix._c07_stores = out
+    return out
+
+
+def _stored_errors_handed_out(f: Any, stores: set[str]) -> tuple[int, dict[str, list[ast.AST]]]:
+    """(number of result values looked at, store -> the result values of f that are an object read out of that store).  Read out:
+    `S[k]`, `S.get(k)`, `S.setdefault(k, ..)`, the variable of a loop / comprehension over S (its values, its items), with S a field
+    `<obj>.<store>` or a module variable; through the locals (and their aliases) bound to such an expression.  A result value is
+    what `return` / `yield` hands on: the value, an element of a returned tuple, an arm of a conditional / `or` expression - except
+    that a generator which yields the variable of its loop over a store hands on the store, entire (aggregation: R07.5).  A copy
+    (copy / deepcopy / evolve / a constructor handed parts of the stored error) is an object of its own."""
+    mod_errors = {v for v, val in f.module.variables.items() if constructs_error(val)}
+    lc = Locals(f.node)
+
+    def store_of(e: ast.AST) -> "str | None":
+        if isinstance(e, ast.Attribute) and f".{e.attr}" in stores:
+            return f".{e.attr}"
+        if isinstance(e, ast.Name) and e.id in stores and e.id not in lc.defs:
+            return e.id
+        return None
+
+    def read_out(e: "ast.AST | None") -> "str | None":
+        if isinstance(e, ast.Subscript) and not isinstance(e.slice, ast.Slice):
+            return store_of(e.value)
+        if isinstance(e, ast.Call) and isinstance(e.func, ast.Attribute) and e.func.attr in ("get", "setdefault") and e.args:
+            return store_of(e.func.value)
+        if isinstance(e, ast.Call) and call_name(e) == "next" and e.args:
+            return elements_of(e.args[0])
+        return None
+
+    def elements_of(it: "ast.AST | None") -> "str | None":
+        """the store whose entries `it` goes through"""
+        while isinstance(it, ast.Call):
+            if isinstance(it.func, ast.Attribute) and it.func.attr in ("values", "items", "copy") and not it.args:
+                it = it.func.value
+            elif call_name(it) in _ELEMENTWISE and it.args:
+                it = it.args[0]
+            else:
+                break
+        if isinstance(it, (ast.GeneratorExp, ast.ListComp)) and len(it.generators) == 1:
+            own = _targets(it.generators[0].target)
+            return elements_of(it.generators[0].iter) if isinstance(it.elt, ast.Name) and it.elt.id in own else None
+        return store_of(it) if it is not None else None
+
+    def leaves(v: "ast.AST | None") -> list[ast.AST]:
+        if isinstance(v, ast.Tuple):
+            return [x for el in v.elts for x in leaves(el)]
+        if isinstance(v, ast.IfExp):
+            return leaves(v.body) + leaves(v.orelse)
+        if isinstance(v, ast.BoolOp):
+            return [x for el in v.values for x in leaves(el)]
+        if isinstance(v, ast.NamedExpr):
+            return leaves(v.value)
+        return [v] if v is not None else []
+
+    taken: dict[str, str] = {}
+    looped: set[str] = set()
+    for name, ds in lc.defs.items():
+        for kind, st, v in ds:
+            if kind.startswith("for"):
+                src = elements_of(v)
+                if src:
+                    looped |= _same_object(f.node, name)
+            elif kind.startswith("assign"):
+                src = next((r for r in (read_out(x) for x in leaves(v)) if r), None) if "[" not in kind else None
+            else:
+                src = None
+            if src:
+                for alias in _same_object(f.node, name):
+                    taken.setdefault(alias, src)
+    n = 0
+    shared: dict[str, list[ast.AST]] = {}
+    for st in _own_walk(f.node):
+        v = st.value if isinstance(st, (ast.Return, ast.Yield)) else None
+        for x in leaves(v):
+            n += 1
+            src = read_out(x) or (taken.get(x.id) if isinstance(x, ast.Name) and not (isinstance(st, ast.Yield) and x.id in looped) else None)
+            if src is None and isinstance(x, ast.Name) and x.id in mod_errors and x.id not in lc.defs:
+                src = f"module variable {x.id}"
+            if src:
+                shared.setdefault(src, []).append(x)
+    return n, shared
 
 
 # ---- copies of objects that carry diagnostics --------------------------------------------------------------------------------------------
@@ -1141,6 +1331,31 @@ def _unlabelled_errors(ix: Any, f: Any, need: list[set[str]], cfgs: dict[str, CF
     return bad, n
 
 
+def _handed_on(ix: Any, f: Any, callee: str, kw: str, depth: int = 2) -> "list[ast.AST] | None":
+    """what `callee` is handed as `kw=` wherever the region of f calls it, in the terms of f: the argument itself when f makes the
+    call; when a private helper of f makes it and passes on one of its own parameters, what f hands the helper for that parameter.
+    None when the region holds no such call."""
+    calls = [c for c in _own_walk(f.node) if isinstance(c, ast.Call) and call_name(c) == callee]
+    if calls:
+        return [k.value for c in calls for k in c.keywords if k.arg == kw]
+    if depth <= 0:
+        return None
+    found: "list[ast.AST] | None" = None
+    for g in region(ix, f, depth=1):
+        if g is f:
+            continue
+        inner = _handed_on(ix, g, callee, kw, depth - 1)
+        if inner is None:
+            continue
+        found = found or []
+        gp = {x.arg for x in g.params}
+        for c in _own_walk(f.node):
+            if isinstance(c, ast.Call) and call_name(c).rsplit(".", 1)[-1] == g.name:
+                env = _bind_call(g, c)
+                found += [env[v.id] for v in inner if isinstance(v, ast.Name) and v.id in gp and v.id in env and v.id not in Locals(g.node).defs]
+    return found
+
+
 def _method_loops(f: Any) -> list[ast.For]:
     """the loops of f whose variable selects the operation from the path item: the attribute name handed to getattr"""
     return [lp for lp in _own_walk(f.node) if isinstance(lp, ast.For) and isinstance(lp.target, ast.Name) and any(
@@ -1413,6 +1628,145 @@ def _removals(fn: ast.AST, regs: set[str]) -> list[tuple[ast.stmt, str, ast.expr
                         isinstance(c.func.value, ast.Attribute) and c.func.value.attr in regs and c.args:
                     out.append((st, c.func.value.attr, c.args[0]))
     return out
+
+
+def _text_calls(e: "ast.AST | None", fn: ast.AST, depth: int = 4, _seen: "set[str] | None" = None) -> list[ast.Call]:
+    """the calls whose result (its elements, when it is gone through by a loop or a comprehension) goes, as text, into the string e:
+    through f-strings, + and %, `x or ""`, conditional expressions, string methods (sep.join(...)), str(), comprehensions (their
+    variable stands for what they go through), `for` variables, and the locals bound to such expressions"""
+    seen = _seen if _seen is not None else set()
+    if e is None or depth < 0:
+        return []
+    if isinstance(e, ast.JoinedStr):
+        return [x for v in e.values if isinstance(v, ast.FormattedValue) for x in _text_calls(v.value, fn, depth, seen)]
+    if isinstance(e, ast.BinOp) and isinstance(e.op, (ast.Add, ast.Mod)):
+        return _text_calls(e.left, fn, depth, seen) + _text_calls(e.right, fn, depth, seen)
+    if isinstance(e, ast.BoolOp):
+        return [x for v in e.values for x in _text_calls(v, fn, depth, seen)]
+    if isinstance(e, ast.IfExp):
+        return _text_calls(e.body, fn, depth, seen) + _text_calls(e.orelse, fn, depth, seen)
+    if isinstance(e, (ast.Tuple, ast.List, ast.Starred)):
+        return [x for el in (e.elts if not isinstance(e, ast.Starred) else [e.value]) for x in _text_calls(el, fn, depth, seen)]
+    if isinstance(e, (ast.ListComp, ast.GeneratorExp, ast.SetComp)):
+        own = {n for g in e.generators for n in _targets(g.target)}
+        out = [x for x in _text_calls(e.elt, fn, depth, seen)]
+        if names_in(e.elt) & own:
+            out += [x for g in e.generators for x in _text_calls(g.iter, fn, depth, seen)]
+        return out
+    if isinstance(e, ast.Call):
+        args = [*e.args, *[k.value for k in e.keywords]]
+        if isinstance(e.func, ast.Attribute) and e.func.attr in ("join", "format", "upper", "lower", "strip", "title", "replace"):
+            return _text_calls(e.func.value, fn, depth, seen) + [x for a in args for x in _text_calls(a, fn, depth, seen)]
+        if call_name(e) in {"str", "repr", "format"} | (_ELEMENTWISE - {"enumerate"}):
+            return [x for a in args for x in _text_calls(a, fn, depth, seen)]
+        return [e]
+    if isinstance(e, ast.Name) and e.id not in seen:
+        seen.add(e.id)
+        out = []
+        for kind, st, v in Locals(fn).defs.get(e.id, []):
+            if kind in ("assign", "aug") or kind.startswith("for"):
+                out += _text_calls(v, fn, depth - 1, seen)
+        return out
+    return []
+
+
+def _calls_of(ix: Any, f: Any) -> list[tuple[Any, ast.Call]]:
+    """(function, call) for every call in the package that can be a call of f: by its name, on a receiver that can be an instance
+    of its class (see _may_denote)"""
+    out = []
+    for h in ix.all_functions:
+        if not h.module.name.startswith(PKG):
+            continue
+        for c in _own_walk(h.node):
+            if isinstance(c, ast.Call) and call_name(c).rsplit(".", 1)[-1] == f.name and _may_denote(ix, h, c, [f]):
+                if f.cls is not None and isinstance(c.func, ast.Attribute):
+                    known = receiver_classes(ix, h, c.func.value)
+                    if known and not any(k.name in known and f.cls in ix.mro(k) for k in ix.classes.values()):
+                        continue
+                out.append((h, c))
+    return out
+
+
+def _hands_on(n: object, what: Any) -> bool:
+    """statement n yields / returns a value for which what(value) holds"""
+    if isinstance(n, ast.Return):
+        return n.value is not None and what(n.value)
+    return isinstance(n, ast.stmt) and any(isinstance(y, (ast.Yield, ast.YieldFrom)) and y.value is not None and what(y.value) for y in walk_own(n))
+
+
+def _received_is_named(ix: Any, h: Any, c: ast.Call, cfgs: dict[str, CFG], depth: int = 2) -> bool:
+    """whatever call c (in h) returns / yields ends up in the text of an error: h hands it on as it is (`return c` / `yield from c`,
+    and the callers of h are asked in turn), or - on every path from the call to the end of h on which the call delivered anything -
+    h writes a string computed from it into a text attribute of an error"""
+    st = next((s_ for s_ in cfg_of(h, cfgs).stmts() if any(x is c for x in walk_own(s_))), None)
+    if st is None:
+        return False
+    if _hands_on(st, lambda v: _through_copies(v) is c):
+        sites = [(g, c2) for g, c2 in _calls_of(ix, h) if g is not h]
+        return depth > 0 and bool(sites) and all(_received_is_named(ix, g, c2, cfgs, depth - 1) for g, c2 in sites)
+    cfg = cfg_of(h, cfgs)
+    errs = error_names(h.node) | {x.arg for x in h.params if x.annotation is not None and norm(x.annotation).strip("'\"").rsplit(".", 1)[-1] in ERROR_CLASSES}
+
+    def writes(n: object) -> bool:
+        if not isinstance(n, (ast.Assign, ast.AugAssign)):
+            return False
+        tgts = n.targets if isinstance(n, ast.Assign) else [n.target]
+        return any(isinstance(t, ast.Attribute) and isinstance(t.value, ast.Name) and t.value.id in errs for t in tgts) and \
+            any(x is c for x in _text_calls(n.value, h.node))
+
+    # locals that hold (text made of) what the call delivered: empty when it delivered nothing
+    lc = Locals(h.node)
+    derived = {name for name in lc.defs if any(x is c for x in _text_calls(ast.Name(id=name, ctx=ast.Load()), h.node))}
+
+    def only_when_delivered(n: object) -> "list[object] | None":
+        """the successors of n that are taken when the call delivered something (None: all of them)"""
+        if isinstance(n, ast.If):
+            t, pos = n.test, True
+            while isinstance(t, ast.UnaryOp) and isinstance(t.op, ast.Not):
+                t, pos = t.operand, not pos
+            if isinstance(t, ast.Name) and t.id in derived:
+                return [n.body[0]] if pos else ([n.orelse[0]] if n.orelse else [x for x in cfg.succ.get(n, ()) if x is not n.body[0]])
+        return None
+
+    # every path from the call to the end passes the write; a loop over what was delivered is entered at least once
+    first_for = {id(n) for n in cfg.stmts() if isinstance(n, ast.For) and any(x is c for x in _text_calls(n.iter, h.node))}
+    seen: set[tuple[int, bool]] = set()
+    stack: list[tuple[object, bool]] = [(st, False)]
+    while stack:
+        n, again = stack.pop()
+        if (id(n), again) in seen:
+            continue
+        seen.add((id(n), again))
+        if n == "EXIT":
+            return False
+        if writes(n):
+            continue
+        succ = list(cfg.succ.get(n, ()))
+        if id(n) in first_for and not again and n.body:  # type: ignore[attr-defined]
+            succ = [n.body[0]]  # type: ignore[attr-defined]
+        else:
+            succ = only_when_delivered(n) or succ
+        for x in succ:
+            stack.append((x, id(x) in first_for and id(x) in {i for i, _ in seen}))
+    return True
+
+
+def _key_handed_to_diagnostic(ix: Any, f: Any, st: ast.stmt, key: ast.expr, cfgs: dict[str, CFG]) -> bool:
+    """the removal `st` of `key` in f is accounted for by f's callers: every path from the removal to the end of f yields / returns
+    the key, and every caller of f in the package names what it receives (_received_is_named); a call of f inside f (the cascade)
+    whose result f hands on as it is goes to the same callers"""
+    cfg = cfg_of(f, cfgs)
+    k = norm(key)
+    if not cfg.every_path_passes(st, "EXIT", lambda n: _hands_on(n, lambda v: norm(v) == k)):
+        return False
+    sites = _calls_of(ix, f)
+    outside = [(h, c) for h, c in sites if h is not f]
+    for h, c in sites:
+        if h is f:
+            own = next((s_ for s_ in cfg.stmts() if any(x is c for x in walk_own(s_))), None)
+            if own is None or not _hands_on(own, lambda v, c=c: _through_copies(v) is c):
+                return False
+    return bool(outside) and all(_received_is_named(ix, h, c, cfgs) for h, c in outside)
 
 
 OPERATIONS, SCHEMAS, STATUSES, MEDIA = "operations", "component schemas", "response statuses", "request media types"
@@ -1741,14 +2095,17 @@ def _iteration_helpers(ix: Any, f: Any) -> dict[str, Any]:
 # ---- what happens to the item on each path through one iteration -------------------------------------------------------------------
 class _S:
     """facts that hold on the paths reaching a program point inside one iteration"""
-    __slots__ = ("rec", "keep", "pend", "absent", "err", "ok", "none", "errl")
+    __slots__ = ("rec", "keep", "pend", "absent", "err", "ok", "none", "errl", "frail", "again")
 
     def __init__(self, rec: bool = False, keep: bool = False, pend: bool = False, absent: bool = False,
-                 err: frozenset = frozenset(), ok: frozenset = frozenset(), none: frozenset = frozenset(), errl: frozenset = frozenset()) -> None:
+                 err: frozenset = frozenset(), ok: frozenset = frozenset(), none: frozenset = frozenset(), errl: frozenset = frozenset(),
+                 frail: bool = False, again: bool = False) -> None:
         self.rec, self.keep, self.pend, self.absent, self.err, self.ok, self.none, self.errl = rec, keep, pend, absent, err, ok, none, errl
+        # frail: an error was appended to a list that the enclosing round loop starts afresh; again: the item was queued for the next round
+        self.frail, self.again = frail, again
 
     def key(self) -> tuple:
-        return (self.rec, self.keep, self.pend, self.absent, self.err, self.ok, self.none, self.errl)
+        return (self.rec, self.keep, self.pend, self.absent, self.err, self.ok, self.none, self.errl, self.frail, self.again)
 
     def __hash__(self) -> int:
         return hash(self.key())
@@ -1810,6 +2167,7 @@ class _Iteration:
             {name for name, ds in self.lc.defs.items() if any(id(st) not in inside and st is not lp for _, st, _v in ds)}
         # slots: locals only ever bound by selecting, with the loop variable, a field / key of some object
         self.slots = {name for name, ds in self.lc.defs.items() if ds and all(self._selects(v, tg) for _, _, v in ds)}
+        self.requeue, self.per_round = _round_structure(self.fn, lp)
         out = self._seq(lp.body, {_S()})
         self._end(lp, out)
         return sorted(self.ends.values(), key=lambda e: (getattr(e[0], "lineno", 0) if e[0] is not lp else 10 ** 9))
@@ -1996,6 +2354,7 @@ class _Iteration:
 
     def _simple(self, st: ast.stmt, s: _S) -> _S:
         rec, keep = False, False
+        frail = again = False
         for c in walk_own(st):
             if isinstance(c, (ast.Yield, ast.YieldFrom)) and c.value is not None:
                 # a generator hands the value to whoever iterates it, exactly as `return` hands it to the caller: an error that is
@@ -2011,8 +2370,12 @@ class _Iteration:
                 arg = c.args[-1] if c.func.attr == "insert" else c.args[0]
                 if c.func.attr != "insert" and self._is_error_value(arg, s):
                     rec = True
+                    if isinstance(c.func.value, ast.Name) and c.func.value.id in self.per_round:
+                        frail = True
                 elif names_in(arg) & self.dep and self._outlives(c.func.value):
                     keep = True
+                if isinstance(c.func.value, ast.Name) and c.func.value.id in self.requeue and names_in(arg) & self.dep:
+                    again = True
         if isinstance(st, ast.Assign):
             for t in st.targets:
                 if isinstance(t, ast.Subscript) and names_in(st.value) & self.dep and self._outlives(t.value):
@@ -2030,6 +2393,8 @@ class _Iteration:
             out = out.but(rec=True, pend=False)
         if keep:
             out = out.but(keep=True)
+        if frail or again:
+            out = out.but(frail=out.frail or frail, again=out.again or again)
         return out
 
     def _refine(self, test: ast.expr, s: _S, want: bool) -> set[_S]:
@@ -2077,6 +2442,38 @@ class _Iteration:
                 return {s.but(none=s.none | {n}, absent=s.absent or n in self.slots)}
             return set() if n in s.none else {s}
         return {s}
+
+
+def _round_structure(fn: ast.AST, lp: ast.For) -> tuple[set[str], set[str]]:
+    """(queues for the next round, other lists started afresh every round) of the round loop(s) around document loop lp: a loop
+    around lp is a round loop when its body, outside lp, binds a local to an empty list and re-binds what lp goes through from that
+    local; every other local its body binds to an empty list outside lp lives one round only.  Both empty: no round structure."""
+    def fresh(v: "ast.AST | None") -> bool:
+        return (isinstance(v, (ast.List, ast.Tuple)) and not v.elts) or (isinstance(v, ast.Call) and call_name(v) in ("list", "deque", "collections.deque")
+                                                                         and not v.args and not v.keywords)
+
+    inside = {id(n) for n in ast.walk(lp)}
+    work = names_in(lp.iter)
+    requeue: set[str] = set()
+    per_round: set[str] = set()
+    for a in _ancestors(fn, lp):
+        if not isinstance(a, (ast.While, ast.For)):
+            continue
+        started: set[str] = set()
+        moved: set[str] = set()
+        for st in _own_walk(a):
+            if id(st) in inside or st is a or not isinstance(st, (ast.Assign, ast.AnnAssign)) or st.value is None:
+                continue
+            tgts = st.targets if isinstance(st, ast.Assign) else [st.target]
+            for t in tgts:
+                if isinstance(t, ast.Name) and fresh(st.value):
+                    started.add(t.id)
+                if isinstance(t, ast.Name) and t.id in work:
+                    moved |= names_in(_through_copies(st.value)) if isinstance(_through_copies(st.value), ast.Name) else set()
+        if moved & started:
+            requeue |= moved & started
+            per_round |= started - moved
+    return requeue, per_round
 
 
 def _innermost_if(loop: ast.AST, st: ast.AST) -> ast.If | None:
